@@ -310,13 +310,70 @@ def shards(tier):
     if tier == "quick":
         out.append(("scan3q",))
     out.append(("scanspec",))
+    for part in range(4):
+        out.append(("addr_sweep", part))
     return out
+
+
+def run_addr_sweep(res, part):
+    """The instance sequences addressed to every short address x instance number (objects and plain integers):
+    nothing may depend on WHICH unit / instance is addressed (0, 31 and 63 included)."""
+    from dali.device.sequences import query_input_value, SetEventFilters, QueryEventFilters, SetEventSchemes
+    from dali.device import pushbutton
+    from dali.address import DeviceShort, InstanceNumber
+    pairs = [(sa, inum) for sa in range(64) for inum in (0, 1, 31)] + [(sa, inum) for sa in (0, 5, 63) for inum in range(32)]
+    for n, (sa, inum) in enumerate(pairs):
+        if n % 4 != part:
+            continue
+        for form in ("obj", "int"):
+            def world():
+                insts = [D.Instance(itype=1, resolution=10, value=0x155, scheme=1, filt=0x111111) for _ in range(32)]
+                insts[inum] = D.Instance(itype=1, resolution=10, value=0x2A6, scheme=4, filt=0x5A5A5A)
+                dev = D.Device(short=sa, instances=insts)
+                dev.dtr0 = dev.dtr1 = dev.dtr2 = 0xA5
+                by = D.Device(short=(sa + 1) % 64, instances=[D.Instance(itype=1, resolution=10, value=0x3FF, scheme=3, filt=0x222222) for _ in range(32)])
+                return dev, by, D.Bus24([dev, by])
+            a, i = (DeviceShort(sa), InstanceNumber(inum)) if form == "obj" else (sa, inum)
+            case = {"t": "addr_sweep", "sa": sa, "inum": inum, "form": form}
+
+            def untouched(dev, by):
+                return all(x.filter == 0x111111 and x.scheme == 1 for j, x in enumerate(dev.instances) if j != inum) and \
+                    all(x.filter == 0x222222 and x.scheme == 3 for x in by.instances)
+            dev, by, bus = world()
+            kind, val, _ = run_sequence(query_input_value(a, i), bus, 60)
+            if kind != "return" or val != 0x2A6:
+                add_violation(res, "C13:addr-sweep:input-value", f"query_input_value(device {sa}, instance {inum}, {form}): {kind} {val!r}, sensor value 0x2a6", case)
+            dev, by, bus = world()
+            fv = pushbutton.InstanceEventFilter(0x55)
+            kind, val, _ = run_sequence(SetEventFilters(a, i, fv), bus, 60)
+            if kind != "return" or dev.instances[inum].filter & 0xFF != 0x55 or val is None or int(val) != 0x55 or not untouched(dev, by):
+                add_violation(res, "C13:addr-sweep:setfilter", f"SetEventFilters(device {sa}, instance {inum}, {form}, 0x55): {kind} {val!r}, "
+                              f"instance filter {dev.instances[inum].filter:#08x}, others untouched: {untouched(dev, by)}", case)
+            dev, by, bus = world()
+            kind, val, _ = run_sequence(QueryEventFilters(a, i, pushbutton.InstanceEventFilter), bus, 60)
+            if kind != "return" or val is None or int(val) != 0x5A:
+                add_violation(res, "C13:addr-sweep:queryfilter", f"QueryEventFilters(device {sa}, instance {inum}, {form}): {kind} {val!r}, unit filter 0x5a", case)
+            dev, by, bus = world()
+            try:
+                kind, val, _ = run_sequence(SetEventSchemes(a, i, 2), bus, 60)
+            except Exception as e:
+                kind, val = "raise", e
+            if kind != "return" or dev.instances[inum].scheme != 2 or not untouched(dev, by):
+                add_violation(res, "C13:addr-sweep:scheme", f"SetEventSchemes(device {sa}, instance {inum}, {form}, 2): {kind} {val!r}, "
+                              f"instance scheme {dev.instances[inum].scheme}", case)
+            res["evaluations"] += 4
+            res["states"] += 4
+    res["distinct"].add(("addr_sweep", part))
+    sample(res, {"address_sweep_part": part, "pairs": len(pairs)})
 
 
 def run_shard(shard):
     from dali.exceptions import DALISequenceError
     res = new_result()
     k = shard[0]
+    if k == "addr_sweep":
+        run_addr_sweep(res, shard[1])
+        return res
     if k == "input":
         _, r, tier = shard
         vals = list(input_values(r, tier))
@@ -502,6 +559,13 @@ def replay(case):
     res = new_result()
     t = case["t"]
     nf = len(case.get("injected", []))
+    if t == "addr_sweep":
+        vs = []
+        for part in range(4):
+            r = new_result()
+            run_addr_sweep(r, part)
+            vs += [v for v in r["violations"] if v["case"] == case]
+        return vs
     if t == "input":
         cfg = {k: case[k] for k in ("res", "value", "explicit", "form")}
         for ch, obs in explore(lambda c: run_input(cfg, c), bound=nf):
